@@ -1,7 +1,10 @@
 //! The untyped Abstract Syntax Tree (AST).
 
 use std::hash::Hash;
+#[cfg(not(feature = "verif_hooks"))]
 use std::{collections::HashMap, fmt::Display};
+#[cfg(feature = "verif_hooks")]
+use {crate::verif_hooks::HashMap, std::fmt::Display};
 
 #[cfg(feature = "serde")]
 use serde::{Deserialize, Serialize};
